@@ -119,6 +119,12 @@ static void action(const std::vector<std::string> &w) {
   if (op == "stats" && w.size() == 4) { P(w[1]).add_stats(w[2], parse_shape(w[3])); return; }
   if (op == "init" && w.size() == 4) { P(w[1]).init(parse_shape(w[2]), floats(w[3]), *g_dev); return; }
   if (op == "initc" && w.size() == 4) { P(w[1]).init(parse_shape(w[2]), initializers::Constant(static_cast<float>(vh::to_i64(w[3]))), *g_dev); return; }
+  // re-initialisation with an Initializer that can itself reject the shape after the tensors exist
+  // (Identity: not a square matrix; Xavier*: depth > 2; *Conv2D: depth > 4)
+  if (op == "initi" && w.size() == 3) { P(w[1]).init(parse_shape(w[2]), initializers::Identity(), *g_dev); return; }
+  if (op == "initx" && w.size() == 3) { P(w[1]).init(parse_shape(w[2]), initializers::XavierUniform(), *g_dev); return; }
+  if (op == "initn" && w.size() == 3) { P(w[1]).init(parse_shape(w[2]), initializers::XavierNormal(), *g_dev); return; }
+  if (op == "initv" && w.size() == 3) { P(w[1]).init(parse_shape(w[2]), initializers::XavierUniformConv2D(), *g_dev); return; }
   if (op == "load" && w.size() == 3) {
     std::string path = g_tmp + "/" + w[2];
     if (w[2] == "garbage") { std::ofstream f(path, std::ios::binary); f << "this is not a parameter file"; }
